@@ -134,7 +134,7 @@ func c11Run(w *W) {
 			if peerKind[kind] == "sub" {
 				_ = ps.SetOption(mangos.OptionSubscribe, "")
 			}
-			if err := ps.Dial(laddr); err == nil {
+			if err := w.DialOn(ps, laddr); err == nil {
 				peers = append(peers, ps)
 			}
 		}
